@@ -80,8 +80,9 @@ def region_map(fn: ast.FunctionDef) -> dict[int, str]:
 class Tracer:
     """Context manager: installs the proxies in `mod` (rbacx.store.file_store), records `steps`."""
 
-    def __init__(self, mod: Any, target: str, data: str | None = None, fault: Fault | None = None):
+    def __init__(self, mod: Any, target: str, data: str | None = None, fault: Fault | None = None, on_step=None):
         self.mod, self.fault, self.data = mod, fault, data
+        self.on_step = on_step      # called with the step index before each step runs (a reader at that instant)
         self.target = os.path.abspath(target)
         self.tmp: str | None = None
         self.tmp_fd: int | None = None
@@ -118,6 +119,8 @@ class Tracer:
         step.setdefault("region", self._line_region())
         idx = len(self.steps)
         self.steps.append(step)
+        if self.on_step is not None:
+            self.on_step(idx)
         ft = self.fault
         if ft is None or self.fired or ft.n != idx:
             return
@@ -265,9 +268,9 @@ def load_module(repo: str | None = None):
     return importlib.import_module("rbacx.store.file_store")
 
 
-def run_write(mod, path: str, data: str, fault: Fault | None = None, encoding: str = "utf-8") -> dict:
+def run_write(mod, path: str, data: str, fault: Fault | None = None, encoding: str = "utf-8", on_step=None) -> dict:
     """one traced `atomic_write`; returns {outcome, exc, steps, fired}"""
-    with Tracer(mod, path, data, fault) as tr:
+    with Tracer(mod, path, data, fault, on_step) as tr:
         try:
             mod.atomic_write(path, data, encoding=encoding)
             outcome, exc = "ok", None
